@@ -2,12 +2,20 @@ import PeptVerif.Lemmas.Score
 /-!
 # C17 — spectrum matching pairs each fragment with exactly the peaks in tolerance
 
-Property theorems only. Models: `Model/Score.lean`; brute-force specification: `Spec/Score.lean`.
+Property theorems only. Models: `Model/Score.lean` (the code of score.py, generic in the number type; the driver
+runs the same definitions at IEEE doubles). Brute-force specification: `Spec/Score.lean` (`window`, `bruteForce`).
+Helper lemmas: `Lemmas/Score.lean`.
+
+Reading decisions (DESIGN.md §4.0): m/z lists sorted ascending; ppm tolerance ≤ 10⁶; `closest` / `largest` may return
+any arg-min / arg-max; in the intensity-fraction clause a peak is identified by its m/z (a `FragmentMatch` carries no
+peak index), so the spectrum is assumed to have pairwise distinct m/z there.
 -/
 namespace Score
 variable {α : Type}
 
-/-- C17 step 1. For *any* `ys` (no sortedness needed here): if the "below the window" predicates are
+/-! ## 1. the two-pointer sweep = the quadratic brute-force matcher -/
+
+/-- Step 1. For *any* `ys` (no sortedness needed here): if the "below the window" predicates are
 monotone along `xs` (a peak below the window of `x` is below the window of every later `x'`) and the
 shared start pointer is admissible, the sweep with its three early exits returns the prefix-length
 windows. `within` (the upper bound) need not be monotone: the upper pointer restarts from the lower one. -/
@@ -42,5 +50,150 @@ theorem sweep_eq_windowTW (below within : α → α → Bool) (ys : List α) (xs
         congr 1
         simp only [windowTW]
         split <;> split <;> first | rfl | omega | (simp; omega)
+
+/-- Step 2. On a sorted peak list the prefix-length window denotes exactly the indices `j` with
+`lo x ≤ ys[j] ≤ hi x` (bounds inclusive) found by testing every `j`. -/
+theorem windowTW_eq_bruteforce [LinearOrder α] (lo hi : α → α) (ys : List α) (hys : ys.Pairwise (· ≤ ·)) (x : α) :
+    idxList (windowTW (fun y x => decide (y < lo x)) (fun y x => decide (y ≤ hi x)) ys x)
+      = window (fun y x => decide (lo x ≤ y) && decide (y ≤ hi x)) ys x := by
+  rw [idxList_windowTW]
+  unfold window
+  rw [windowTW_eq_window_aux lo hi x 0 ys hys]
+  simp
+
+/-- `sweep_correct`: for sorted fragment and peak lists of any length and a monotone lower bound, the sweep
+(shared lower pointer, three early exits) returns for every fragment exactly the brute-force window. -/
+theorem sweep_correct [LinearOrder α] (lo hi : α → α) (xs ys : List α)
+    (hxs : xs.Pairwise (· ≤ ·)) (hys : ys.Pairwise (· ≤ ·)) (hlo : ∀ a b, a ≤ b → lo a ≤ lo b) :
+    (sweep (fun y x => decide (y < lo x)) (fun y x => decide (y ≤ hi x)) ys 0 xs).map idxList
+      = xs.map (window (fun y x => decide (lo x ≤ y) && decide (y ≤ hi x)) ys) := by
+  rw [sweep_eq_windowTW]
+  · rw [List.map_map]
+    apply List.map_congr_left
+    intro x _
+    exact windowTW_eq_bruteforce lo hi ys hys x
+  · refine hxs.imp ?_
+    intro a b hab y hy
+    simp only [decide_eq_true_eq] at hy ⊢
+    exact lt_of_lt_of_le hy (hlo a b hab)
+  · intro x _; exact Nat.zero_le _
+
+example : ([100, 200, 200, 300] : List Rat).Pairwise (· ≤ ·) := by decide
+
+/-- absolute tolerance: the lower bound `mz - tol` is monotone for every tolerance (also negative ones) -/
+theorem th_monotone (tol a b : Rat) (h : a ≤ b) : lo .th tol a ≤ lo .th tol b := by
+  simp only [lo, offset, rat_sub]
+  linarith
+
+/-- ppm tolerance: the lower bound `mz - mz·tol/10⁶` is monotone whenever `tol ≤ 10⁶` (no sign condition on `mz`
+is needed for monotonicity; `mz ≥ 0` only makes the window non-degenerate) -/
+theorem ppm_monotone (tol a b : Rat) (htol : tol ≤ 1000000) (h : a ≤ b) : lo .ppm tol a ≤ lo .ppm tol b := by
+  simp only [lo, offset, rat_sub, rat_mul, rat_div, rat_million]
+  have h1 : 0 ≤ 1 - tol / 1000000 := by linarith
+  have h2 := mul_nonneg (sub_nonneg.mpr h) h1
+  have e : b - b * tol / 1000000 - (a - a * tol / 1000000) = (b - a) * (1 - tol / 1000000) := by ring
+  linarith
+
+example : (20 : Rat) ≤ 1000000 := by decide
+
+/-- the lower bound is *not* monotone for tolerances above 10⁶ ppm: the hypothesis of `ppm_monotone` is needed -/
+theorem ppm_not_monotone_above_million : ¬ (lo .ppm (2000000 : Rat) 1 ≤ lo .ppm 2000000 2) := by
+  simp only [lo, offset, rat_sub, rat_mul, rat_div, rat_million]
+  norm_num
+
+/-- `get_matched_indices` (model at ℚ) = brute force, tolerance type `th`, any tolerance value -/
+theorem getMatchedIndices_correct_th (tol : Rat) (xs ys : List Rat)
+    (hxs : xs.Pairwise (· ≤ ·)) (hys : ys.Pairwise (· ≤ ·)) :
+    (getMatchedIndices .th tol xs ys).map idxList = bruteForce .th tol xs ys :=
+  sweep_correct (lo .th tol) (hi .th tol) xs ys hxs hys (th_monotone tol)
+
+/-- `get_matched_indices` (model at ℚ) = brute force, tolerance type `ppm`, tolerance ≤ 10⁶ -/
+theorem getMatchedIndices_correct_ppm (tol : Rat) (htol : tol ≤ 1000000) (xs ys : List Rat)
+    (hxs : xs.Pairwise (· ≤ ·)) (hys : ys.Pairwise (· ≤ ·)) :
+    (getMatchedIndices .ppm tol xs ys).map idxList = bruteForce .ppm tol xs ys :=
+  sweep_correct (lo .ppm tol) (hi .ppm tol) xs ys hxs hys (fun a b => ppm_monotone tol a b htol)
+
+/-- no match is reported exactly when there is none: the entry for `x` is `None` iff the brute-force window is empty -/
+theorem none_iff_window_empty [LinearOrder α] (lo hi : α → α) (ys : List α) (hys : ys.Pairwise (· ≤ ·)) (x : α) :
+    windowTW (fun y x => decide (y < lo x)) (fun y x => decide (y ≤ hi x)) ys x = none
+      ↔ window (fun y x => decide (lo x ≤ y) && decide (y ≤ hi x)) ys x = [] := by
+  rw [windowTW_none_iff, windowTW_eq_bruteforce lo hi ys hys x]
+
+/-! ## 2. the modes of `match_spectra` -/
+
+/-- whatever the mode, `match_spectra` reports `None` for a fragment iff `get_matched_indices` did -/
+theorem match_none_iff [Num α] (mode : Mode) (ys : List α) (ints : Option (List α)) (x : α) (w : Option (Nat × Nat)) :
+    pick mode ys ints x w = .ok Hit.none ↔ w = none :=
+  pick_none_iff mode ys ints x w
+
+/-- mode `all` over ℚ: for sorted lists the result is, fragment by fragment, the brute-force window
+(`None` when it is empty, else the list of all indices within tolerance) -/
+theorem all_mode_eq_window (t : Tol) (tol : Rat) (xs ys : List Rat) (ints : Option (List Rat))
+    (hxs : xs.Pairwise (· ≤ ·)) (hys : ys.Pairwise (· ≤ ·)) (hlo : ∀ a b, a ≤ b → lo t tol a ≤ lo t tol b) :
+    matchSpectra .all t tol xs ys ints
+      = .ok (xs.map fun x => hitOfWindow (window (inWindow t tol) ys x)) := by
+  unfold matchSpectra getMatchedIndices
+  rw [sweep_eq_windowTW]
+  · have hz : ∀ (l : List Rat) (f : Rat → Option (Nat × Nat)), l.zip (l.map f) = l.map fun x => (x, f x) := by
+      intro l f; induction l with
+      | nil => rfl
+      | cons a l ih => simp [ih]
+    rw [hz, mapM_ok _ (fun p => hitOfWindow (idxList p.2))]
+    · rw [List.map_map]
+      congr 1
+      apply List.map_congr_left
+      intro x _
+      simp only [Function.comp]
+      congr 1
+      exact windowTW_eq_bruteforce (lo t tol) (hi t tol) ys hys x
+    · intro p hp
+      obtain ⟨x, _, rfl⟩ := List.mem_map.mp hp
+      exact pick_all ys ints x _ (fun s e h => (windowTW_wf _ _ ys x s e h).1)
+  · refine hxs.imp ?_
+    intro a b hab y hy
+    simp only [below, rat_lt, decide_eq_true_eq] at hy ⊢
+    exact lt_of_lt_of_le hy (hlo a b hab)
+  · intro x _; exact Nat.zero_le _
+
+/-- mode `closest` over ℚ: on a non-empty window `[s, e)` the result is an index of the window whose peak is at
+minimal distance from the fragment (the model returns the first such; any arg-min satisfies the property) -/
+theorem closest_mem_argmin (ys : List Rat) (ints : Option (List Rat)) (x : Rat) (s e : Nat) (hse : s < e)
+    (he : e ≤ ys.length) :
+    ∃ j, pick .closest ys ints x (some (s, e)) = .ok (.one j) ∧ s ≤ j ∧ ∃ hj : j < e,
+      ∀ k (hk : k < e), s ≤ k → |x - ys[j]'(by omega)| ≤ |x - ys[k]'(by omega)| :=
+  closest_spec ys ints x s e hse he
+
+/-- mode `largest` over ℚ: on a non-empty window the result is an index of the window of maximal intensity -/
+theorem largest_mem_argmax (ys ints : List Rat) (x : Rat) (s e : Nat) (hse : s < e) (he : e ≤ ints.length) :
+    ∃ j, pick .largest ys (some ints) x (some (s, e)) = .ok (.one j) ∧ s ≤ j ∧ ∃ hj : j < e,
+      ∀ k (hk : k < e), s ≤ k → ints[k]'(by omega) ≤ ints[j]'(by omega) :=
+  largest_spec ys ints x s e hse he
+
+/-! ## 3. matched-intensity fraction -/
+
+/-- `get_matched_intensity_percentage` over ℚ: for a spectrum `ps` of (m/z, intensity) peaks with pairwise distinct
+m/z and matches that are peaks of it (in any order, with any repetition), the result is the summed intensity of the
+distinct matched peaks over the total intensity. -/
+theorem intensity_fraction_eq (ps ms : List (Rat × Rat)) (hnd : (ps.map (·.1)).Nodup) (hsub : ∀ m ∈ ms, m ∈ ps)
+    (htot : (ps.map (·.2)).sum ≠ 0) :
+    matchedIntensityPercentage ms (ps.map (·.2))
+      = ((matchedPeaks ps ms).map (·.2)).sum / (ps.map (·.2)).sum := by
+  unfold matchedIntensityPercentage
+  simp only [rat_eq, rat_zero, rat_div, sumL_eq_sum (ps.map (·.2)), htot, decide_false, Bool.false_eq_true, if_false]
+  rw [matched_sum_eq ps ms hnd hsub]
+
+/-- … and it lies in `[0, 1]` when the intensities are non-negative (also when the total is 0: the code returns 0) -/
+theorem intensity_fraction_unit_interval (ps ms : List (Rat × Rat)) (hnd : (ps.map (·.1)).Nodup)
+    (hsub : ∀ m ∈ ms, m ∈ ps) (hnn : ∀ p ∈ ps, 0 ≤ p.2) :
+    0 ≤ matchedIntensityPercentage ms (ps.map (·.2)) ∧ matchedIntensityPercentage ms (ps.map (·.2)) ≤ 1 := by
+  by_cases htot : (ps.map (·.2)).sum = 0
+  · unfold matchedIntensityPercentage
+    simp [sumL_eq_sum (ps.map (·.2)), htot]
+  · rw [intensity_fraction_eq ps ms hnd hsub htot]
+    obtain ⟨h1, h2⟩ := matched_le_total ps ms hnn
+    have hpos : 0 < (ps.map (·.2)).sum := lt_of_le_of_ne (le_trans h2 h1) (Ne.symm htot)
+    exact ⟨div_nonneg h2 (le_of_lt hpos), (div_le_one hpos).mpr h1⟩
+
+example : (([(100, 5), (200, 0), (300, 7)] : List (Rat × Rat)).map (·.1)).Nodup := by decide
 
 end Score
